@@ -105,6 +105,8 @@ def run(F, chk):
         check_full_exit(b, M4, cl, F)
     M6 = chk.rule('M6', 'compaction keeps buf[i] <-> abs_pos + i for the copied window; if it leaves a stale prefix buf[0..offset), every Seek store to pos is bounded below by a field recording that offset')
     check_seek_window(F, M6)
+    M7 = chk.rule('M7', 'the inner source is read only into the reader\'s own buffer (no bypass): every byte handed out is accounted for by pos/cap/abs_pos')
+    check_inner_reads(F, M7)
     # M5: the consumer side.  The look-ahead guarantee is only worth something if the iterator's progress between two parse
     # attempts does not depend on how much happens to be buffered: it consumes either the length the parser reported or one byte.
     import c01
@@ -113,7 +115,7 @@ def run(F, chk):
     nexts = [b for b in F.order if b.path.startswith('<' + c01.IT) and b.impl_trait == 'std::iter::Iterator' and b.path.endswith('::next')]
     M5.floor('DltMessageIterator::next', len(nexts), 1)
     for b in nexts:
-        c01.check_iterator(b, M5, RuleResult('K2', 'not part of C04'))
+        c01.check_iterator(b, M5, RuleResult('K2', 'not part of C04'), None, F)
     for b in cs:
         cfg = CFG(b)
         E = ExprBuilder(cfg, fold_named=True)
@@ -180,34 +182,129 @@ def fold(e):
     return None
 
 
+HELPER_BOOL = re.compile(r'^\{?Try::branch\(LowMarkBufReader::(\w+)\(.*\)\)\}?@Continue\.0$|^LowMarkBufReader::(\w+)\(.*\)$')
+
+
+def classify_exit_cond(cs_, truth):
+    """accepted reasons to stop refilling, from the text of a condition that holds"""
+    if truth is True and cs_.startswith('Eq(') and 'Read::read(' in cs_ and cs_.endswith(', 0)'):
+        return 'read == 0'
+    if truth == ('eq', 0) and 'Read::read(' in cs_ and not cs_.startswith(('discr(', 'Eq(', 'Ne(', 'Lt(', 'Gt(', 'Le(', 'Ge(', 'Not(')):
+        return 'read == 0'
+    if truth is True and cs_.startswith('Eq(') and 'Read::read(' in cs_ and '.cap' in cs_ and ('Sub(' in cs_ or 'RangeFrom' in cs_):
+        return 'read == free space (buffer full)'
+    return None
+
+
+def helper_bool_reasons(H, value):
+    """private reader method returning bool / io::Result<bool> (`read_more() -> Result<bool>`: "keep going?"): the reasons for which
+    it can yield `value` - one per definition of the returned bool that can produce it - or None if one of them is not an
+    accepted reason {read == 0, read == free space}"""
+    cfg = CFG(H)
+    E = ExprBuilder(cfg, fold_named=True)
+    E0 = ExprBuilder(cfg)
+    reasons = []
+    n = 0
+    for blk in H.blocks:
+        if blk.cleanup:
+            continue
+        for s in blk.stmts:
+            if not (s.k == 'assign' and s.place.is_local and s.place.l == 0 and not s.place.p):
+                continue
+            if s.rv['k'] == 'agg' and s.rv.get('variant') == 'Ok' and s.rv['ops']:
+                o = Operand(s.rv['ops'][0])
+            elif s.rv['k'] == 'use' and H.ret_type() == 'bool':
+                o = Operand(s.rv['o'])
+            else:
+                continue
+            n += 1
+            x = E.operand(o)
+            # every definition of the bool (it may be a phi temp)
+            vals = [(x, blk.i)]
+            if o.place is not None and o.place.is_local and not o.place.p and len(cfg.defs.get(o.place.l, [])) > 1:
+                vals = [((E.rvalue(d_.rv) if si_ != 'call' else None), bi_) for (bi_, si_, d_) in cfg.defs[o.place.l]]
+            for (v, at) in vals:
+                if v is None:
+                    return None
+                if v[0] == 'const':
+                    if bool(v[1]) != value:
+                        continue
+                    why = None
+                    for (c, truth, D) in guards.known(cfg, E, at):
+                        why = why or classify_exit_cond(show(c), truth)
+                    if why is None:
+                        return None
+                    reasons.append(why)
+                else:
+                    nc, nt = guards.normalise(v, value)
+                    why = classify_exit_cond(show(nc), nt) if nt is True else None
+                    if why is None:
+                        return None
+                    reasons.append(why)
+    return sorted(set(reasons)) if n else None
+
+
+def helper_err_only_from_inner_read(H):
+    cfg = CFG(H)
+    E = ExprBuilder(cfg, fold_named=True)
+    ok = False
+    for (bi, si, d) in cfg.defs.get(0, []):
+        if si != 'call':
+            if d.rv['k'] == 'agg' and d.rv.get('variant') == 'Ok':
+                continue
+            return False
+        if not d.callee.path.endswith('FromResidual::from_residual'):
+            return False
+        if 'Try::branch(Read::read(' not in show(E.operand(d.args[0])):
+            return False
+        ok = True
+    return ok
+
+
 def check_fill(b, M2, F=None):
+    b0 = b
     cfg = CFG(b)
     E = ExprBuilder(cfg, fold_named=True)
-    getters = getter_texts(reader_helpers(F, b)) if F is not None else {}
+    helpers = reader_helpers(F, b) if F is not None else {}
+    getters = getter_texts(helpers)
     M2.fn(b.path)
-    # (a) EOF latch
-    latch = [(blk, s) for blk in b.blocks if not blk.cleanup for s in blk.stmts if s.k == 'assign' and show(E.target(s.place)) == '(*self).empty_last_read']
-    M2.floor('stores to empty_last_read', len(latch), 1)
-    for (blk, s) in latch:
-        v = E.rvalue(s.rv)
-        M2.sites += 1
-        if v != ('const', 1):
-            if v == ('const', 0):
-                M2.ok(sample={'store': 'empty_last_read = false'})
+    # (a) EOF latch (in fill_buf and in the private methods it calls)
+    latch_all = []
+    for hb in [b] + list(helpers.values()):
+        hcfg_ = cfg if hb is b else CFG(hb)
+        hE_ = E if hb is b else ExprBuilder(hcfg_, fold_named=True)
+        for blk in hb.blocks:
+            if blk.cleanup:
+                continue
+            for s in blk.stmts:
+                if s.k == 'assign' and show(hE_.target(s.place)) == '(*self).empty_last_read':
+                    latch_all.append((hb, hcfg_, hE_, blk, s))
+    latch = [(blk, s) for (hb, _c, _e, blk, s) in latch_all if hb is b]
+    M2.floor('stores to empty_last_read', len(latch_all), 1)
+    for (hb_, cfg_l, E_l, blk, s) in latch_all:
+      for (cfg, E, b) in [(cfg_l, E_l, hb_)]:
+            v = E.rvalue(s.rv)
+            M2.sites += 1
+            if v != ('const', 1):
+                if v == ('const', 0):
+                    M2.ok(sample={'store': 'empty_last_read = false'})
+                else:
+                    M2.violation(('latch-value', b.path), 'empty_last_read is set to %s' % show(v), where=b.loc(s.sp))
+                continue
+            ok = False
+            for (c, truth, D) in guards.known(cfg, E, blk.i):
+                cs_ = show(c)
+                if truth is True and cs_.startswith('Eq(') and 'Read::read(' in cs_ and cs_.endswith(', 0)'):
+                    ok = True
+                if truth == ('eq', 0) and 'Read::read(' in cs_ and not cs_.startswith(('discr(', 'Eq(', 'Ne(', 'Lt(', 'Gt(', 'Le(', 'Ge(', 'Not(')):
+                    ok = True      # `match read { 0 => .. }`: integer switch on the value read
+            if ok:
+                M2.ok(sample={'store': 'empty_last_read = true', 'only_under': 'inner.read(..) == 0'})
             else:
-                M2.violation(('latch-value', b.path), 'empty_last_read is set to %s' % show(v), where=b.loc(s.sp))
-            continue
-        ok = False
-        for (c, truth, D) in guards.known(cfg, E, blk.i):
-            cs_ = show(c)
-            if truth is True and cs_.startswith('Eq(') and 'Read::read(' in cs_ and cs_.endswith(', 0)'):
-                ok = True
-            if truth == ('eq', 0) and 'Read::read(' in cs_ and not cs_.startswith(('discr(', 'Eq(', 'Ne(', 'Lt(', 'Gt(', 'Le(', 'Ge(', 'Not(')):
-                ok = True      # `match read { 0 => .. }`: integer switch on the value read
-        if ok:
-            M2.ok(sample={'store': 'empty_last_read = true', 'only_under': 'inner.read(..) == 0'})
-        else:
-            M2.violation(('latch-unguarded', b.path), 'end-of-data is latched (empty_last_read = true) at %s on an edge other than `read == 0`: a short read would end the stream early' % b.loc(s.sp), where=b.loc(s.sp))
+                M2.violation(('latch-unguarded', b.path), 'end-of-data is latched (empty_last_read = true) at %s on an edge other than `read == 0`: a short read would end the stream early' % b.loc(s.sp), where=b.loc(s.sp))
+    cfg = CFG(b0)
+    E = ExprBuilder(cfg, fold_named=True)
+    b = b0
     # (b) loop exits
     loops = cfg.loops()
     M2.floor('refill loop', len(loops), 1)
@@ -243,6 +340,23 @@ def check_fill(b, M2, F=None):
                     kind = 'read == free space (buffer full)'
                 elif c.startswith('discr(Try::branch(Read::read(') and edge_true is not None:
                     kind = 'I/O error propagated'
+                elif c.startswith('discr(Try::branch(LowMarkBufReader::'):
+                    hn = re.match(r'discr\(Try::branch\(LowMarkBufReader::(\w+)\(', c)
+                    hb2 = [h for p_, h in helpers.items() if hn and p_.endswith('::' + hn.group(1))]
+                    if hb2 and helper_err_only_from_inner_read(hb2[0]):
+                        kind = 'I/O error propagated (by %s)' % hn.group(1)
+                if kind is None and edge_true is not None:
+                    raw = E.switch_cond(blk)
+                    val = edge_true
+                    while isinstance(raw, tuple) and raw[0] == 'un' and raw[1] == 'Not':
+                        raw, val = raw[2], not val
+                    hm = HELPER_BOOL.match(show(raw))
+                    if hm:
+                        hname = hm.group(1) or hm.group(2)
+                        hb2 = [h for p_, h in helpers.items() if p_.endswith('::' + hname)]
+                        rs = helper_bool_reasons(hb2[0], val) if hb2 else None
+                        if rs:
+                            kind = ' / '.join(rs) + ' (reported by %s)' % hname
                 elif 'empty_last_read' in c:
                     kind = 'already at end of data'
             # the break after latching EOF is a goto out of the loop from the latch block
@@ -391,6 +505,18 @@ def check_full_exit(b, M4, cl, F=None):
         c = show(E.switch_cond(blk))
         if c.startswith('Eq(') and 'Read::read(' in c and 'Sub(' in c and '.cap' in c:
             full_exits.append(blk)
+            continue
+        # the test moved into a private method that reports "stop" (`if !self.read_more()? { break }`)
+        raw = E.switch_cond(blk)
+        while isinstance(raw, tuple) and raw[0] == 'un' and raw[1] == 'Not':
+            raw = raw[2]
+        hm = HELPER_BOOL.match(show(raw))
+        if hm:
+            hname = hm.group(1) or hm.group(2)
+            hb2 = [h for p_, h in helpers.items() if p_.endswith('::' + hname)]
+            if hb2 and any('buffer full' in r for v_ in (True, False) for r in (helper_bool_reasons(hb2[0], v_) or [])):
+                full_exits.append(blk)
+                M4.fn(hb2[0].path)
     M4.floor('compaction sites (pos = offset) in fill_buf', len(compaction), 1)
     M4.floor('buffer-full exits (read == free space) in fill_buf', len(full_exits), 1)
 
@@ -529,3 +655,56 @@ def check_seek_window(F, M6):
                                      'accepted and fill_buf/read then hand out the stale bytes buf[0..offset) of the previous window' %
                                      (show(E2.rvalue(s.rv))[:60], sb.loc(s.sp), '; '.join(lower) or 'none', ', '.join(sorted(window_fields))), where=sb.loc(s.sp))
     M6.floor('stores to pos in Seek', n, 1)
+
+
+# ---------------------------------------------------------------------------------------------
+# M7: no read of the inner source past the window bookkeeping
+
+def check_inner_reads(F, M7):
+    """"keeps its absolute position" / "interleavings of fill, consume, read, seek": abs_pos + pos is the number of bytes handed
+    out only because every byte taken from the inner source lands in self.buf and is then handed out through pos/cap.  A read
+    of the inner source straight into a caller buffer (the large-read bypass of std's BufReader) advances the source without
+    any of the three counters - stream_position() and every later seek are off by that amount.  Who-may-call + argument rule
+    over all bodies of LowMarkBufReader: a Read::read* on `self.inner` must target a slice of `self.buf`."""
+    bodies = [b for b in F.order if (b.path.startswith('<' + RD) or b.path.startswith(RD + '::<')) and b.crate == 'lib']
+    M7.floor('bodies of LowMarkBufReader', len(bodies), 5)
+    n = 0
+    for b in bodies:
+        cfg = E = None
+        for blk in b.calls():
+            t = blk.term
+            if not re.search(r'io::Read::(read|read_exact|read_to_end|read_vectored|read_buf|read_buf_exact|read_to_string)$', t.callee.path) or not t.args:
+                continue
+            if cfg is None:
+                cfg = CFG(b)
+                E = ExprBuilder(cfg, fold_named=True)
+            recv = show(E.operand(t.args[0]))
+            if '(*self).inner' not in recv:
+                continue
+            n += 1
+            M7.sites += 1
+            M7.fn(b.path)
+            dst = show(E.operand(t.args[1])) if len(t.args) > 1 else ''
+            accounted = None
+            if '(*self).buf' not in dst:
+                # a bypass is sound if the bytes it hands out are added to abs_pos: a store to abs_pos reachable from the
+                # read whose value derives from the read's result
+                from prov import Prov
+                pr = Prov(cfg)
+                for x in cfg.reachable_from(blk.i):
+                    for s_ in b.blocks[x].stmts:
+                        if s_.k == 'assign' and show(E.target(s_.place)) == '(*self).abs_pos' and s_.rv['k'] in ('use', 'bin', 'cast'):
+                            toks = set()
+                            for key in ('o', 'a', 'b'):
+                                if key in s_.rv:
+                                    toks |= pr.operand(Operand(s_.rv[key]), at=x)
+                            if any(tk[0] == 'call' and tk[1] == t.callee.path for tk in toks):
+                                accounted = b.loc(s_.sp)
+            if '(*self).buf' in dst:
+                M7.ok(sample={'inner_read_at': b.loc(t.sp), 'into': dst[:80]})
+            elif accounted:
+                M7.ok(sample={'inner_read_at': b.loc(t.sp), 'into': dst[:80], 'accounted_in_abs_pos_at': accounted})
+            else:
+                M7.violation(('inner-read-bypasses-window', b.path), '%s reads the inner source into %s at %s, not into the reader\'s own buffer: those bytes are handed out without pos/cap/abs_pos moving, '
+                             'so stream_position() and every later seek are off by that amount' % (b.path, dst[:60] or '?', b.loc(t.sp)), where=b.loc(t.sp))
+    M7.floor('reads of the inner source', n, 1)
